@@ -143,6 +143,12 @@ func scenario(cfg Config, n *int) *explore.Scenario {
 		sc.Bounds = explore.Bounds{Preemptions: 3}
 	case "fault+schedule":
 		sc.Bounds = explore.Bounds{Faults: 1, Preemptions: 1}
+	case "schedule-all": // every interleaving of writer and reader (no preemption bound)
+		sc.Bounds = explore.Bounds{Preemptions: 1 << 20}
+	case "crash+schedule-all":
+		sc.Bounds = explore.Bounds{Crashes: 1, Preemptions: 1 << 20}
+	case "fault+schedule-all":
+		sc.Bounds = explore.Bounds{Faults: 1, Preemptions: 1 << 20}
 	}
 	sc.New = func() *explore.Instance {
 		*n++
@@ -209,6 +215,13 @@ func scenario(cfg Config, n *int) *explore.Scenario {
 				readerObs = fmt.Sprintf("scan:%v errors:%v", devs, ek)
 			})
 			in.Names = append(in.Names, "reader")
+		}
+		in.CheckPartial = func(e *sched.Exec) (string, string, any) {
+			sched.OnStep = nil
+			if invariantBroken != "" {
+				return "intermediate-state:" + strings.Fields(invariantBroken)[2], "at some instant during the write: " + invariantBroken, nil
+			}
+			return "", "", nil
 		}
 		in.Check = func(e *sched.Exec) (string, string, any) {
 			sched.OnStep = nil
@@ -302,6 +315,9 @@ func configs(thorough bool) []Config {
 					out = append(out, Config{ext, prev, dirExist, reader, "crash+reader", 2})
 					if thorough {
 						out = append(out, Config{ext, prev, dirExist, reader, "fault+schedule", 2})
+						out = append(out, Config{ext, prev, dirExist, reader, "schedule-all", 3})
+						out = append(out, Config{ext, prev, dirExist, reader, "crash+schedule-all", 2})
+						out = append(out, Config{ext, prev, dirExist, reader, "fault+schedule-all", 2})
 					}
 				}
 			}
@@ -319,6 +335,8 @@ type workerOut struct {
 	Capped     bool                `json:"capped"`
 	Infra      string              `json:"infra"`
 	MaxTrace   int                 `json:"max_trace"`
+	Pruned     int64               `json:"pruned"`
+	States     int64               `json:"hb_states"`
 }
 
 func runWorker(spec string, thorough bool, deadline time.Time) {
@@ -334,7 +352,7 @@ func runWorker(spec string, thorough bool, deadline time.Time) {
 		}
 		cnt := 0
 		res := explore.Explore(scenario(cfg, &cnt), deadline)
-		_ = enc.Encode(workerOut{Config: cfg, Executions: res.Executions, Points: res.Points, Outcomes: res.Outcomes, Violations: res.Violations, Capped: res.Capped, Infra: res.Infra, MaxTrace: res.MaxTrace})
+		_ = enc.Encode(workerOut{Config: cfg, Executions: res.Executions, Points: res.Points, Outcomes: res.Outcomes, Violations: res.Violations, Capped: res.Capped, Infra: res.Infra, MaxTrace: res.MaxTrace, Pruned: res.Pruned, States: res.States})
 	}
 }
 
